@@ -13,6 +13,7 @@ from . import _cmdspace as S
 
 ID = "C03"
 OPTIMISED_STRIDE = {"quick": 12, "thorough": 12}      # every k-th shard once more in an interpreter started with -O
+TRACE_STRIDE = {"quick": 12, "thorough": 12}      # every k-th shard once more with logging enabled down to TRACE
 LEVEL = "exploration"
 ENGINE = "E1"
 TECHNIQUE = "exhaustive enumeration of table rows x legal arguments: library constructor vs independent table-driven encoder, and reference frame -> library decoder"
